@@ -206,8 +206,8 @@ class Check:
         self.checker_cmds = []
         self.thorough = tier == "thorough"
         kf = json.load(open(os.path.join(VERIF, "known_findings.json")))["findings"]
-        extra = os.path.join(VERIF, "findings", pid + ".json")   # work in progress, merged by tools/merge.py
-        if os.path.exists(extra):
+        import glob
+        for extra in sorted(glob.glob(os.path.join(VERIF, "findings", pid + "*.json"))):   # work in progress, merged by tools/merge.py
             kf = kf + json.load(open(extra))
         self.known = {f["key"]: f for f in kf if f["property"] == pid and f["status"] == "open"}
         self.known_hit = {}
